@@ -3,12 +3,10 @@ C14 ∘ C07: the medium clause of C14 (`C14_receivers`: who takes a multicast pa
 acknowledges, stored once) for the radio of a node **after any history of admissible API calls** —
 C07's invariant (`C07_history_listening`) carried over by the bridge `C14Bridge.listening_bridge`.
 
-Import note: this file sits on the C07 stack (`NetExecC07`), which cannot be imported together with the
-C05 / closed-system stack (`NetExecJ`: both define `Nrf.Net.nexec`, `NetState.node`, …) that
-NrfProps/C14.lean now uses for `C14_level_closed`.  So this composition cannot live in NrfProps/C14.lean
-and does not import it: the proof of `C14_receivers` is repeated from its lemmas
-(NrfProofs/McastAirK.lean).  In NrfProps/C14.lean the same statement is `C14_receivers_listening`, with
-`Nrf.Spec.Listening` — the conclusion of `C07_history_listening` — as hypothesis.
+Import note: this file sits on the C07 stack (`NetExecC07`); since `nexec`, `NetState.node`, … are shared
+with the closed-system stack (NrfProofs/NetExecCore.lean) it can be imported by NrfProps/C14.lean, where the
+theorem is `C14_receivers_after_api`.  It does not import NrfProps/C14.lean: the proof of `C14_receivers` is
+repeated from its lemmas (NrfProofs/McastAirK.lean).
 -/
 import NrfProps.C07
 import NrfProofs.McastAirK
@@ -26,7 +24,7 @@ open Nrf.Props.C07 (Runs CfgBytes radioOf Call)
     address of level `L` — on pipe 0 — iff the node holds level `L`, never acknowledges it, and
     stores it once iff moreover the RX FIFO has room and the packet is no repetition. -/
 theorem receivers_after_api (cs : List Call) (s s' : NetState)
-    (hopen : Nrf.Net.Quiet s) (h : NodeListens s) (hc : CfgBytes s.node.cfg)
+    (hopen : Nrf.Net.Quiet7 s) (h : NodeListens s) (hc : CfgBytes s.node.cfg)
     (hadm : ∀ c ∈ cs, c.Admissible) (hr : Runs cs s s')
     (ds : List Nat) (hn : IsNode ds) (ha : s'.node.a.addr = val ds)
     (hlv : s'.node.a.netLvl = ds.length)
@@ -61,7 +59,7 @@ theorem receivers_after_api (cs : List Call) (s s' : NetState)
     `demo`), the empty history and a one-step history (an environment move), the node on tree node
     `[3, 2, 1]` with its multicast level 3 = its tree level; a level address exists for every level
     `L ≤ 5` under the session's configuration -/
-example : ∃ s s' ds, Nrf.Net.Quiet s ∧ NodeListens s ∧ CfgBytes s.node.cfg ∧
+theorem receivers_after_api_example : ∃ (s s' : NetState) (ds : List Nat), Nrf.Net.Quiet7 s ∧ NodeListens s ∧ CfgBytes s.node.cfg ∧
     Runs [Call.envFaults [Outcome.ackLost]] s s' ∧
     (∀ c ∈ [Call.envFaults [Outcome.ackLost]], c.Admissible) ∧
     Runs [] s s ∧ IsNode ds ∧ s.node.a.addr = val ds ∧ s.node.a.netLvl = ds.length ∧
